@@ -48,8 +48,9 @@ def f12self : List Item :=
   [.mod false 1 [.fn false 2 [] (.lit 7), .use true [1, 2] .single], .fn false 0 [] (.call (.qvar [1, 2]))]
 
 
-/-- … and the same entry of the visibility map opens the wildcard route:
-`mod a { fn secret(){7.0}  pub use a::secret }  use a::*`, then plain `secret` -/
+/-- … and the plain-identifier route: the re-export also registers the global alias `secret`, and the overwritten
+entry of the visibility map lets it pass from any other module:
+`mod a { fn secret(){7.0}  pub use a::secret }  use a::*  mod b { pub fn p(){ secret() } }` -/
 def f12wild : List Item :=
   [.mod false 1 [.fn false 2 [] (.lit 7), .use true [1, 2] .single], .use false [1] .wildcard,
    .mod false 3 [.fn true 4 [] (.call (.var [2]))], .fn false 0 [] (.call (.qvar [3, 4]))]
